@@ -211,8 +211,21 @@ def one_call(ctx, rng, tag=''):
     else:
         yv = gen_values(rng, dtype, (d,), vclass)
     X = layout(rng, A, lay)
+    zero_width = kernel != 'hamming' and n > 0 and rng.random() < 0.05
+    if zero_width:
+        # no columns at all (e.g. X[:, mask] with an all-False mask): every
+        # distance is 0.  The empty view sits inside real, non-zero data, so
+        # a kernel that touches column 0 anyway returns something else
+        c = int(rng.integers(0, d + 1))
+        X, A, yv = X[:, c:c], A[:, c:c], yv[c:c]
+        d = 0
     ylay = ['C', 'step', 'neg'][int(rng.integers(0, 3))]
-    if ylay == 'step':
+    if zero_width:
+        yb = gen_values(rng, dtype, (4,), 'small')
+        y = yb[2:2]
+        ylay = 'empty-view'
+        ctx.count('zero_width_calls')
+    elif ylay == 'step':
         yb = np.zeros(d * 2, dtype=dtype)
         yb[::2] = yv
         y = yb[::2]
@@ -233,8 +246,9 @@ def one_call(ctx, rng, tag=''):
         if out is not None and n and rng.random() < 0.3:
             # the caller reuses its output buffer: an earlier result for
             # other data is still in it
-            fn(layout(rng, gen_values(rng, dtype, (n, d), 'small'), 'C'),
-               np.ascontiguousarray(yv), out=out)
+            fn(layout(rng, gen_values(rng, dtype, (n, max(d, 1)), 'small'),
+                      'C'),
+               gen_values(rng, dtype, (max(d, 1),), 'small'), out=out)
             desc['out_reused'] = True
         res = fn(X, y, out=out) if out is not None else fn(X, y)
     except Exception as e:  # noqa
